@@ -368,8 +368,52 @@ def paired_excitation_stores(repo, res):
                             getattr(n, "lineno", None)))
 
 
+_OPS = {ast.Lt: (True, False, False), ast.LtE: (True, True, False), ast.Gt: (False, False, True), ast.GtE: (False, True, True),
+        ast.NotEq: (True, False, True), ast.Eq: (False, True, False)}
+_FLIP = {ast.Lt: ast.Gt, ast.LtE: ast.GtE, ast.Gt: ast.Lt, ast.GtE: ast.LtE, ast.NotEq: ast.NotEq, ast.Eq: ast.Eq}
+
+
+def full_ring_threshold(repo, res):
+    """R8: every place that compares the angular span `phi2 - phi1` with 360 splits the *admitted* spans the same way.
+    The values are touched only through comparisons, so each predicate is a truth table over the three orderings (<, =, >) of the
+    span against 360.  The validator's rejecting predicate removes orderings; on the remaining ones the field code (segment formula
+    vs. full-cylinder fallback) and the display code (end caps or none) must induce the same partition.  A 360 degree body sent
+    through the segment formula has its two end planes coincide inside the material, where all four fields are returned as 0."""
+    sites = []
+    for m, q, fn_, cl in repo.all_functions():
+        for c in ast.walk(fn_):
+            if not (isinstance(c, ast.Compare) and len(c.ops) == 1 and type(c.ops[0]) in _OPS):
+                continue
+            a, b, op = c.left, c.comparators[0], type(c.ops[0])
+            if isinstance(a, ast.Constant):
+                a, b, op = b, a, _FLIP[op]
+            if not (isinstance(b, ast.Constant) and b.value == 360 and isinstance(a, ast.BinOp) and isinstance(a.op, ast.Sub)
+                    and all(isinstance(x, ast.Name) and "phi" in x.id for x in (a.left, a.right))):
+                continue
+            sites.append((m, q, c, _OPS[op]))
+    val = [s for s in sites if s[1].startswith("check_")]
+    cons = [s for s in sites if not s[1].startswith("check_")]
+    res.require(len(val) >= 1 and len(cons) >= 2, f"R8: anchors vanished (span-vs-360 comparisons: {len(val)} in validators, {len(cons)} in consumers)")
+    admitted = [i for i in range(3) if not any(s[3][i] for s in val)]      # orderings no validator predicate rejects
+    parts = {}
+    for m, q, c, tt in cons:
+        part = frozenset({frozenset(i for i in admitted if tt[i]), frozenset(i for i in admitted if not tt[i])})
+        parts.setdefault(part, []).append((m, q, c))
+    names = "<=>"
+    ref = max(parts.items(), key=lambda kv: (any(frozenset() not in kv[0] for _ in [0]), len(kv[1])))[0]
+    for part, ss in parts.items():
+        for m, q, c in ss:
+            ok = part == ref and frozenset() not in part
+            res.ob(f"R8:{q}:{norm(c)}", ok, {"rule": "R8", "site": q, "comparison": norm(c), "admitted_orderings": [names[i] for i in admitted],
+                                             "partition": sorted("".join(names[i] for i in sorted(p)) for p in part)})
+            if not ok:
+                res.add(Finding("R8", m.rel, q, c, "this comparison of the angular span with 360 does not separate the full ring (span = 360, admitted by the "
+                                f"validator) from a proper segment the way the other {len(cons) - len(ss)} site(s) do: a 360 degree body is treated as a segment "
+                                "here and as a full ring elsewhere", c.lineno))
+
+
 def run(repo, res, tier):
-    res.rules = ["R1 single mu0 (constant folding + bindings)", "R2 BHJM return dimensions (44 obligations)", "R3 typed setter sync", "R4 None-flow", "R5 one inside-mask for J/M and for +-J", "R6 paired excitation stores atomic", "R7 every normal setter exit writes both"]
+    res.rules = ["R1 single mu0 (constant folding + bindings)", "R2 BHJM return dimensions (44 obligations)", "R3 typed setter sync", "R4 None-flow", "R5 one inside-mask for J/M and for +-J", "R6 paired excitation stores atomic", "R7 every normal setter exit writes both", "R8 span-vs-360 comparisons partition the admitted spans alike"]
     scan_constants(repo, res)
     results = dim_rules.run_fields()
     res.require(len(results) >= 44, f"only {len(results)} field-function runs (expected >= 44)")
@@ -387,6 +431,7 @@ def run(repo, res, tier):
     setter_sync(repo, res)
     mask_consistency(repo, res)
     paired_excitation_stores(repo, res)
+    full_ring_threshold(repo, res)
     # R4 = C17/S5 restricted to the excitation setters
     c17.none_flow(repo, res, rule="R4", only_classes=("BaseMagnet", "BaseCurrent", "Dipole"))
     if errors and not res.new_findings():
